@@ -1015,6 +1015,7 @@ def plan(tier, seed):
         specs += [{'kind': 'generated', 'i': i, 'n': 60, 'pairs': 40, 'schedules': 3} for i in range(4)]
         specs += [{'kind': 'js-history', 'i': i, 'n': 40} for i in range(4)]
         specs += [{'kind': 'js-csv-history', 'i': i, 'n': 30} for i in range(2)]
+        specs.append({'kind': 'fs-registry', 'max_schedules': 300})
         specs.append({'kind': 'sqlite-history'})
         specs += [{'kind': 'pandas-history', 'i': i, 'n': 40} for i in range(2)]
         specs += [{'kind': 'frontend-threads', 'n': 25} for i in range(2)]
@@ -1038,6 +1039,7 @@ def plan(tier, seed):
         specs += [{'kind': 'generated', 'i': i, 'n': 400, 'pairs': 400, 'schedules': 6} for i in range(12)]
         specs += [{'kind': 'js-history', 'i': i, 'n': 200} for i in range(8)]
         specs += [{'kind': 'js-csv-history', 'i': i, 'n': 120} for i in range(4)]
+        specs.append({'kind': 'fs-registry', 'max_schedules': 5000})
         specs.append({'kind': 'sqlite-history'})
         specs += [{'kind': 'pandas-history', 'i': i, 'n': 300} for i in range(6)]
         specs += [{'kind': 'frontend-threads', 'n': 150} for i in range(8)]
@@ -1097,9 +1099,88 @@ def leg_js_csv_history(ns, res, spec):
     res.sample({'leg': 'js-csv-history', 'cases': len(reqs), 'example': {k: v for k, v in reqs[0].items() if k in ('query', 'chunks', 'policy')}})
 
 
+def leg_fs_registry_interleave(ns, res, spec):
+    """Two CSV queries that each JOIN a file of their own through ONE FileSystemCSVRegistry object kept by the application, under every interleaving of
+    their join-table and input reads: each result as when the query runs alone with a registry of its own."""
+    import io
+    import shutil
+    import tempfile
+    d = tempfile.mkdtemp(prefix='rv-c16-')
+    tl = threading.local()
+    try:
+        for k in (1, 2):
+            with open(os.path.join(d, 'in_%d.csv' % k), 'w', newline='') as f:
+                f.write(''.join('k%d,x%d%d\n' % (i, k, i) for i in range(3)))
+            with open(os.path.join(d, 'jn_%d.csv' % k), 'w', newline='') as f:
+                f.write(''.join('k%d,y%d%d\n' % (i % 2, k, i) for i in range(3)))
+
+        class SteppingRegistry(ns.csv.FileSystemCSVRegistry):
+            def get_iterator_by_table_id(self, table_id, single_char_alias):
+                it = ns.csv.FileSystemCSVRegistry.get_iterator_by_table_id(self, table_id, single_char_alias)
+                orig = it.get_record
+
+                def get_record():
+                    st = getattr(tl, 'step', None)
+                    if st is not None:
+                        st(getattr(tl, 'who', ''), 'get_record')
+                    return orig()
+                it.get_record = get_record
+                return it
+
+        def run(k, reg, step=None, who=''):
+            tl.step, tl.who = step, who
+            out, warns = [], []
+            try:
+                with open(os.path.join(d, 'in_%d.csv' % k), 'rb') as f:
+                    it = ns.csv.CSVRecordIterator(f, 'utf-8', ',', 'quoted')
+                    ns.rbql.query('select a1, a2, b2, bNR join jn_%d.csv on a1 == b1' % k, it, ns.engine.TableWriter(out), warns, reg)
+                return {'rows': out, 'warnings': warns, 'error': None}
+            except Exception as e:
+                return {'rows': out, 'warnings': warns, 'error': '%s: %s' % (type(e).__name__, str(e)[:80])}
+            finally:
+                tl.step = None
+
+        def fresh_registry():
+            return SteppingRegistry(d, ',', 'quoted', 'utf-8', False, None)
+        solo = {}
+        for k in (1, 2):
+            reg = fresh_registry()
+            solo[k] = run(k, reg)
+            reg.finish()
+        holder = {}
+
+        def make_bodies():
+            holder['reg'] = fresh_registry()
+            return [lambda step: run(1, holder['reg'], step, '1'), lambda step: run(2, holder['reg'], step, '2')]
+        bad = [0]
+
+        def on_run(s, results, excs):
+            res.evaluations += 1
+            res.count('fs_registry_schedules')
+            try:
+                holder['reg'].finish()
+            except Exception:
+                pass
+            if s.blocked is not None:
+                res.violation('py:shared-fs-registry-interleaving-never-completes', '[py] schedule %s cannot complete: %s' % (''.join(str(t + 1) for t in s.trace), s.blocked), {'leg': 'fs-registry', 'schedule': s.trace})
+                return False
+            for tid, k in ((0, 1), (1, 2)):
+                got = results[tid] if excs[tid] is None else {'error': repr(excs[tid])}
+                if got != solo[k] and bad[0] < 3:
+                    bad[0] += 1
+                    res.violation('py:shared-fs-registry-result-depends-on-interleaving', '[py] two CSV JOIN queries through one FileSystemCSVRegistry under schedule %s: query %d -> %r ; alone -> %r' % (
+                        ''.join(str(t + 1) for t in s.trace), k, got, solo[k]), {'leg': 'fs-registry', 'schedule': s.trace, 'query': k})
+        count, traces, complete = sched.explore(make_bodies, on_run, spec.get('max_schedules', 400))
+        res.count('fs_registry_distinct_traces', traces)
+        res.distinct_disjoint += traces
+        res.sample({'leg': 'fs-registry', 'schedules': count, 'distinct_traces': traces, 'complete': complete, 'solo': solo[1]})
+    finally:
+        shutil.rmtree(d, ignore_errors=True)
+
+
 def run_shard(spec, res):
     ns = env.import_rbql()
-    {'js-csv-history': leg_js_csv_history, 'history': leg_history, 'interleave': leg_interleave, 'preempt': leg_preempt, 'generated': leg_generated, 'js-history': leg_js_history, 'sqlite-history': leg_sqlite_history, 'pandas-history': leg_pandas_history, 'frontend-threads': leg_frontend_threads, 'csv-history': leg_csv_history, 'shared-table-history': leg_shared_table_history}[spec['kind']](ns, res, spec)
+    {'fs-registry': leg_fs_registry_interleave, 'js-csv-history': leg_js_csv_history, 'history': leg_history, 'interleave': leg_interleave, 'preempt': leg_preempt, 'generated': leg_generated, 'js-history': leg_js_history, 'sqlite-history': leg_sqlite_history, 'pandas-history': leg_pandas_history, 'frontend-threads': leg_frontend_threads, 'csv-history': leg_csv_history, 'shared-table-history': leg_shared_table_history}[spec['kind']](ns, res, spec)
 
 
 def summarize(tier, seed, m):
@@ -1107,7 +1188,7 @@ def summarize(tier, seed, m):
         'rule': '%d scenarios (plain select, like, UNNEST, ORDER BY, DISTINCT COUNT, GROUP BY with all nine aggregates, JOIN, UPDATE with NU, TOP, syntax error, parsing error, runtime error at record 2, aggregate misuse, double UNNEST, and two pairs of identical query texts over differently ordered headers); solo results from one fresh interpreter per scenario; history: every sequence of length <= 2 plus random sequences of length 3..6 in one process; interleaving: every unordered pair of scenarios (incl. a scenario with itself) in two real threads under the cooperative scheduler, ALL interleavings of the get_record / write / finish steps enumerated by stateless DFS (%s); preemption stress with sys.monitoring LINE yield injection; generated queries (C01-C05 generators, failing variants, and header twins: the same query text over the same data with the columns in another order) whose solo results come from forked children of a query-free interpreter, together with a state-reading query (its result is interpreter-wide state: int/str digit limit, recursion limit, switch interval, decimal precision, locale, encodings, buffer size, TZ, csv field limit) three queries whose user init code keeps module-level state (a counter, a memo; each twice), and nine stress queries (5000-digit integers written before a failure, 200000-character cells, 3000-column records, float overflow), then run in three shuffled orders through one interpreter (probe sink and CSV writer sink) and pairwise in two threads under seeded random schedules; the JS port sequentially: generated language-neutral queries alone in a fresh node process each vs three shuffled histories (with failing queries interspersed) in one node process; the sqlite front-end with one connection shared by every ordered pair of 15 queries (utf-8 / latin-1 output, 7 of them failing) vs a fresh connection each, and the caller\'s connection settings before / after; the pandas front-end with ONE DataFrame object (and one join frame) serving histories of 3-6 queries while its owner re-labels, permutes, renames, adds, drops and overwrites columns in place between them, each result compared with the same query over a newly built equal frame in a forked child that ran no query; query_csv histories of 3-8 calls where the meaning of a query text depends on its surroundings (the same relative join table name next to inputs in three directories, a relative input path under a changing working directory, a ~/.rbql_table_names entry re-pointed between calls, dialect / encoding / header flag changing from call to call, failing calls in between), against forked-child baselines; histories of 3-7 queries over ONE list table object with typed cells (numbers, None, strings a CSV sink must quote) and one join table through list and CSV sinks, against fresh copies in forked children; the front-ends side by side: 8 threads running query_csv (five dialects / encodings, JOIN files, failing queries), query_pandas_dataframe and query_sqlite_to_csv under statement-level yield injection in the engine, CSV reader / writer, splitter and adapters, each result compared with a forked child that ran only that task. distinct_nontrivial = distinct step traces realised + distinct history sequences.' % (
             len(SCENARIOS), '2-record tables' if tier == 'quick' else '2- and 3-record tables for all pairs (3-record pairs capped at 20000 schedules), 4-record tables for 6 selected pairs'),
         'exhaustive': m['counters'].get('pairs_truncated', 0) == 0,
-        'required': ['js_csv_history_runs', 'shared_registry_history_runs', 'shared_table_history_runs', 'shared_table_solo_results_from_forked_children', 'shared_table_history_sink:csv-quoted', 'shared_table_history_sink:list', 'csv_history_runs', 'csv_history_solo_results_from_forked_children', 'csv_history_solo_failing', 'environment_reader_and_stressor_cases', 'frontend_thread_runs', 'frontend_solo_results_from_forked_children', 'frontend_solo_failing', 'frontend_injected_yields', 'pandas_history_runs', 'pandas_history_solo_results_from_forked_children', 'pandas_history_solo_failing', 'pandas_history_op:relabel', 'pandas_history_op:add', 'sqlite_history_runs', 'sqlite_history_solo_failing', 'js_solo_results_from_fresh_node_processes', 'js_history_runs', 'generated_solo_results', 'generated_header_twins', 'generated_history_runs', 'generated_interleaved_schedules', 'generated_interleaved_handoffs', 'schedules', 'pairs_enumerated_completely', 'handoffs', 'history_runs', 'preemption_runs', 'line_events_in_main_loop', 'injected_yields'],
+        'required': ['js_csv_history_runs', 'fs_registry_schedules', 'shared_registry_history_runs', 'shared_table_history_runs', 'shared_table_solo_results_from_forked_children', 'shared_table_history_sink:csv-quoted', 'shared_table_history_sink:list', 'csv_history_runs', 'csv_history_solo_results_from_forked_children', 'csv_history_solo_failing', 'environment_reader_and_stressor_cases', 'frontend_thread_runs', 'frontend_solo_results_from_forked_children', 'frontend_solo_failing', 'frontend_injected_yields', 'pandas_history_runs', 'pandas_history_solo_results_from_forked_children', 'pandas_history_solo_failing', 'pandas_history_op:relabel', 'pandas_history_op:add', 'sqlite_history_runs', 'sqlite_history_solo_failing', 'js_solo_results_from_fresh_node_processes', 'js_history_runs', 'generated_solo_results', 'generated_header_twins', 'generated_history_runs', 'generated_interleaved_schedules', 'generated_interleaved_handoffs', 'schedules', 'pairs_enumerated_completely', 'handoffs', 'history_runs', 'preemption_runs', 'line_events_in_main_loop', 'injected_yields'],
         'assumptions': ['exhaustive at the granularity of iterator / writer calls (what the statement names); statement-level preemption is sampled; bytecode-level is not explored', 'a change of module-level state alone is not a refutation (advisory notes only)'],
     }
 
